@@ -126,10 +126,41 @@ def scan_structs(crates):
     return out
 
 
+def strip_attributes(text):
+    """remove `#[...]` attributes (possibly spanning lines, with nested brackets and string literals)"""
+    out, i, n = [], 0, len(text)
+    while i < n:
+        if text[i] == '#' and re.match(r'#\s*!?\s*\[', text[i:]):
+            j = text.index('[', i)
+            depth, k, instr = 0, j, False
+            while k < n:
+                ch = text[k]
+                if instr:
+                    if ch == '\\':
+                        k += 1
+                    elif ch == '"':
+                        instr = False
+                elif ch == '"':
+                    instr = True
+                elif ch == '[':
+                    depth += 1
+                elif ch == ']':
+                    depth -= 1
+                    if depth == 0:
+                        break
+                k += 1
+            i = k + 1
+            continue
+        out.append(text[i])
+        i += 1
+    return ''.join(out)
+
+
 def field_names(body):
     items = []
     depth = 0
     cur = ''
+    body = strip_attributes(body)
     for ch in body:
         if ch in '({[<':
             depth += 1
@@ -144,8 +175,7 @@ def field_names(body):
         items.append(cur)
     names = []
     for it in items:
-        it = '\n'.join(l for l in it.split('\n') if not l.strip().startswith('#')).strip()
-        it = re.sub(r'#\s*\[[^\]]*\]', '', it, flags=re.S).strip()
+        it = strip_attributes(it).strip()
         m = re.match(r'(?:pub(?:\([^)]*\))?\s+)?([A-Za-z_][A-Za-z_0-9]*)\s*:', it)
         if m:
             names.append(m.group(1))
